@@ -39,6 +39,8 @@ def segment_edits(ref, typ, segs, with_last=True, with_dstar=True):
         out.append(("seg", i, segs[i][:1] + "*," + other))
         if ref.templates[typ][i][1] is None:
             # a star glued to literal text in a free-text position; the run it stands for may be empty ('ab*' matches 'ab')
+            out.append(("seg", i, segs[i] + ","))        # an empty alternative (the empty value is legal in a free-text position)
+            out.append(("seg", i, "," + segs[i]))
             out.append(("seg", i, segs[i] + "*"))
             out.append(("seg", i, "*" + segs[i]))
             out.append(("seg", i, segs[i][:1] + "*" + segs[i][1:]))
